@@ -663,6 +663,15 @@ def check_c03(tier):
                 elif cls == 'names_unused_partner':
                     rep.violation('header_names_unused_adjacent_partner', f"header entries {labels[:4]} also name the upstream member of "
                                   f"a merged adjacent pair that the peptide does not carry", ro)
+                elif cls == 'names_other_allele':
+                    rep.violation('header_names_other_allele', f"header entries {labels[:4]} name another allele of a multi-allelic site than "
+                                  f"the one the peptide carries", ro)
+                elif cls == 'dense_cluster':
+                    rep.violation('header_in_dense_variant_cluster', f"header entries {labels[:4]} differ from the haplotype that produces the "
+                                  f"peptide only in variants of a dense cluster (another input variant within 3 nt)", ro)
+                elif it['cfg']['rule'] in LOOKBEHIND and cls in ('context_witness', 'no_witness'):
+                    rep.violation(known_key(it, 'lookbehind' if cls == 'no_witness' else 'context'),
+                                  f"header entries {labels[:4]} are not witnesses (rule whose pattern looks beyond P1/P1')", ro)
                 elif cls == 'context_witness' and (it['cfg']['rule'] in LOOKBEHIND or it['cfg']['exc']):
                     rep.violation(known_key(it, 'context'), f"header entries {labels[:4]} are not witnesses (context-dependent rule)", ro)
                 else:
